@@ -36,6 +36,14 @@ def make_wl(rng, k):
                                "phase": "after"}
         spec["n_chr"] = max(3, spec.get("n_chr", 3))
         spec["n_exp"] = 1
+    if k is not None and k % 10 == 6:
+        # killed during read collection, after the first / second chromosome was collected; the resumed run reloads those
+        # chromosomes from their save files: a multi-mapped read must still be weighted as one read
+        opts["force_fault"] = {"kind": "kill", "stage": "collect", "label_rx": r":open:w:.*_collected$", "nth": (k // 10) % 2, "phase": "after"}
+        spec["n_chr"] = max(3, spec.get("n_chr", 3))
+        spec["n_exp"] = 1
+        spec["long_locus"] = 1
+        spec["chr_order"] = 0
     # multi-mapped reads whose kept record(s) name one gene but two isoforms (labels vs. number of features)
     spec["ambig_multi"] = rng.choice([2, 4, 6])
     return spec, opts
